@@ -36,11 +36,11 @@ func (s c18state) admits(ip string) bool { return !s.enable || s.list[ip] }
 // admission probes one source address: it connects, immediately sends a
 // pipeline and reports what happened.
 type c18obs struct {
-	served   bool // all replies arrived
-	anyByte  bool // any byte of reply
-	closed   bool
+	served    bool // all replies arrived
+	anyByte   bool // any byte of reply
+	closed    bool
 	atBackend bool
-	err      string
+	err       string
 }
 
 func c18probe(env *Env, src string) c18obs {
